@@ -48,6 +48,11 @@ func (c c07Case) ramp() []Sample {
 
 func genC07(t *rapid.T) c07Case {
 	c := c07Case{Cfg: genLossCfg(t, []string{"aimd", "vegas", "gradient", "gradient2"})}
+	c.Cfg.Listener = rapid.IntRange(0, 2).Draw(t, "withListener") == 0
+	if rapid.IntRange(0, 3).Draw(t, "behindTraced") == 0 {
+		// the algorithm behind the traced wrapper (a pass-through: every sample must reach it unchanged)
+		c.Cfg.Traced, c.Cfg.TraceDebug = true, rapid.Bool().Draw(t, "traceDebug")
+	}
 	switch c.Cfg.Algo {
 	case "gradient":
 		if c.Cfg.RTTTol < 1 {
